@@ -282,6 +282,8 @@ impl Queryable for Value {
 }
 
 fn convert_js_path(path: &str) -> Parsed<String> {
+    #[cfg(jsonpath_rust_verif)]
+    crate::verif::point(crate::verif::REFERENCE);
     let JpQuery { segments } = parse_json_path(path)?;
 
     let mut path = String::new();
